@@ -11,6 +11,8 @@ Ops (one per line, space separated; every structured argument is one space-free 
 * `schema <Name> <schema>`                — register the schema regenerated from the protobuf descriptors of /repo;
                                             pinned names are compared with the schemas the theorems are stated for
 * `enc <Name> <msg>`                      — `x<bytes of encode> <normal form>`; also checks `decode (encode m) = norm m`
+* `canon <Name> x<bytes>`                 — canonical re-encoding of a NON-canonical input (explicit defaults, over-long
+                                            varints): `x<encode (decode bytes)>`
 * `sigeq <Name> <msg> <msg>`              — `same` / `diff`: do the two signed messages have the same encoding
 * `txsig n e t to amount maxFee tips payload`, `txfull … signature useRlp`, `votesig r s parent voted off upgrade`,
   `phdr <16 header fields>`, `ehdr <7 header fields>` — the Lean message builders of `Model/CodecObjects.lean`
@@ -266,6 +268,13 @@ def step (st : St) (line : String) : St × String :=
     match st.schemas.lookup name, parseSpec specTok, parseGoVals valsTok with
     | some s, some spec, some vals => (st, recAnswer s spec vals)
     | _, _, _ => (st, "bad-op")
+  | ["canon", name, hexTok] =>
+    match st.schemas.lookup name, parseHex hexTok with
+    | some s, some bs =>
+      match decode 16 s bs with
+      | some m => (st, if wfMsg s m then "x" ++ hexOf (encode s m) else "unsupported")
+      | none => (st, "undecodable")
+    | _, _ => (st, "bad-op")
   | ["sigeq", name, t1, t2] =>
     match st.schemas.lookup name, parseMsgTok t1, parseMsgTok t2 with
     | some s, some m1, some m2 =>
